@@ -215,8 +215,35 @@ fn handle(st: &mut State, req: &J) -> J {
             };
             let so = h.out.take();
             let se = h.err.take();
+            let convert_all = req.get("convert_all").and_then(|b| b.as_bool()).unwrap_or(false);
+            let omit_val = req.get("omit_val").and_then(|b| b.as_bool()).unwrap_or(false);
             match res {
-                Ok(v) => json!({"ok": true, "val": val_to_json(&v), "stdout": so, "stderr": se}),
+                Ok(v) => {
+                    let mut conv = Vec::new();
+                    if convert_all {
+                        if let Val::Tuple(fs) = v.as_ref() {
+                            for (name, fv) in fs.iter().take(8) {
+                                for (cname, c) in st.converters.get_converter_list() {
+                                    let fv = fv.clone();
+                                    let r = panic::catch_unwind(panic::AssertUnwindSafe(|| {
+                                        let mut buf: Vec<u8> = Vec::new();
+                                        c.convert(fv, &mut buf).map(|_| buf.len()).map_err(|e| format!("{}", e))
+                                    }));
+                                    match r {
+                                        Ok(Ok(n)) => conv.push(json!({"name": name.as_ref(), "conv": cname, "ok": true, "len": n})),
+                                        Ok(Err(e)) => conv.push(json!({"name": name.as_ref(), "conv": cname, "ok": false, "err": e})),
+                                        Err(_) => {
+                                            let (msg, loc) = LAST_PANIC.with(|p| p.borrow_mut().take()).unwrap_or_default();
+                                            conv.push(json!({"name": name.as_ref(), "conv": cname, "panic": {"msg": msg, "loc": loc}}))
+                                        }
+                                    }
+                                }
+                            }
+                        }
+                    }
+                    let vj = if omit_val { J::Null } else { val_to_json(&v) };
+                    json!({"ok": true, "val": vj, "stdout": so, "stderr": se, "conv": conv})
+                }
                 Err(e) => json!({"ok": false, "err": e, "stdout": so, "stderr": se}),
             }
         }
